@@ -121,7 +121,10 @@ func (gw *inclusiveGateway) run(ctx context.Context, sender tracing.ISenderHandl
 				if response == nil {
 					// Reschedule, there's no next action yet
 					go func() {
-						gw.mch <- m
+						select {
+						case gw.mch <- m:
+						case <-ctx.Done():
+						}
 					}()
 					continue
 				}
@@ -169,13 +172,13 @@ func (gw *inclusiveGateway) run(ctx context.Context, sender tracing.ISenderHandl
 						gw.arrived = append(gw.arrived, m.flow.Id())
 						gw.sync = append(gw.sync, m.response)
 					}
-					gw.trySync()
+					gw.trySync(ctx)
 				}
 			}
 		case <-activity:
 			if !gw.synchronized && gw.activated != nil {
 				gw.awaiting = gw.flowTracker.activeFlowsInCohort(gw.activated.flow.Id())
-				gw.trySync()
+				gw.trySync(ctx)
 			}
 		case <-ctx.Done():
 			gw.tracer.Send(CancellationFlowNodeTrace{Node: gw.element})
@@ -184,7 +187,7 @@ func (gw *inclusiveGateway) run(ctx context.Context, sender tracing.ISenderHandl
 	}
 }
 
-func (gw *inclusiveGateway) trySync() {
+func (gw *inclusiveGateway) trySync(ctx context.Context) {
 	verifAt("or.trysync")
 	if !gw.synchronized && len(gw.arrived) >= len(gw.awaiting) {
 		// Have we got everybody?
@@ -202,9 +205,12 @@ func (gw *inclusiveGateway) trySync() {
 			gw.activated.response <- probeAction{
 				sequenceFlows: gw.nonDefaultSequenceFlows,
 				probeReport: func(indices []int) {
-					gw.mch <- gatewayProbingReport{
+					select {
+					case gw.mch <- gatewayProbingReport{
 						result: indices,
 						flowId: anId,
+					}:
+					case <-ctx.Done():
 					}
 				},
 			}
@@ -223,7 +229,12 @@ func (gw *inclusiveGateway) NextAction(ctx context.Context, flow Flow) chan IAct
 	// buffered: the gateway answers exactly once per request and must not
 	// block on a flow that has gone (instance cancelled)
 	response := make(chan IAction, 1)
-	gw.mch <- nextActionMessage{response: response, flow: flow}
+	// the run loop exits when ctx is done: a flow arriving then must not wait
+	// for room in an inbox nobody drains any more
+	select {
+	case gw.mch <- nextActionMessage{response: response, flow: flow}:
+	case <-ctx.Done():
+	}
 	return response
 }
 
